@@ -177,8 +177,13 @@ class ModbusUdpProtocol(protocol.DatagramProtocol):
             continuation = lambda request: self._execute(request, addr)
             units = self.store.slaves()
             single = self.store.single
-            self.framer.processIncomingPacket(data, continuation,
-                                              single=single, unit=units)
+            try:
+                self.framer.processIncomingPacket(data, continuation,
+                                                  single=single, unit=units)
+            finally:
+                # a datagram is self contained: never keep the rest of
+                # one peer's datagram for the next datagram
+                self.framer.resetFrame()
 
     def _execute(self, request, addr):
         """ Executes the request and returns the result
